@@ -151,7 +151,7 @@ var (
 	textsOut  = []string{"ab c", "ab!", "ab", "", " a", "a ", "ab\x01", "x y", "x"}
 	// hierarchical types in prefix relation ('/' sorts before '<' in the printed form) and ids in prefix relation
 	nodeIDs = [][2]string{{"/u", "a"}, {"/u", "b"}, {"/u", "c"}, {"/t", "a"}, {"/t", "x y"}, {"/u", "ab"},
-		{"/u", "al"}, {"/u/x", "al"}, {"/u/x/y", "a"}, {"/ux", "a"}, {"/u/x", "a"}, {"/u", "z"}, {"/u", "a b"}}
+		{"/u", "al"}, {"/u/x", "al"}, {"/u/x/y", "a"}, {"/ux", "a"}, {"/u/x", "a"}, {"/u", "z"}, {"/u", "a b"}, {"/t", "ab"}, {"/ta", "b"}}
 	predIDs  = []string{"p", "q", "knows", "p q"}
 	instants = []string{
 		"2020-01-01T00:00:00Z", "2020-01-01T00:00:01Z", "2019-12-31T23:30:00Z", "2021-06-15T12:00:00Z",
